@@ -4,56 +4,20 @@ import json
 import os
 
 import vlib
+from checks import common
 
 PID = "C19"
-
-
-def _run_harness_replay(c, topic, path):
-    out = vlib.ohv(["replay", topic, path])
-    summary = None
-    for line in out.splitlines():
-        if line.startswith("MISMATCH "):
-            c.mismatch("implementation differs from the table computed by TLC: " + line[9:200], json.loads(line[9:]))
-        elif line.startswith("SUMMARY "):
-            summary = json.loads(line[8:])
-    if summary is None:
-        raise vlib.ToolError("harness produced no summary")
-    return summary
 
 
 def run(tier, corrupt=0):
     c = vlib.Check(PID, "model_checking", tier, selftest=bool(corrupt))
     vlib.build_harness()
-    # MC: counter machine + algebraic laws
-    r = vlib.tlc_ok("MC_ExtTime", workers=4, coverage=True)
-    c.add_tlc(r)
-    zero = r.coverage_zero_actions()
-    if zero:
-        raise vlib.ToolError("vacuous model: actions never taken: %s" % zero)
-    # GEN: expected tables
+    common.mc_phase(c, "MC_ExtTime")
     tables = os.path.join(vlib.WORK, "c19_tables.json")
-    g = vlib.tlc_ok("Gen_ExtTime", env={"OUT": tables}, heap="6g")
-    s = _run_harness_replay(c, "exttime", tables)
-    c.add("evaluations", s["evaluations"])
-    c.add("distinct_nontrivial", s["nontrivial"])
-    # TRACE: random histories
-    n = 4000 if tier == "quick" else 60000
-    tr = os.path.join(vlib.WORK, "c19_trace.ndjson")
-    args = ["record", "exttime", "--seed", c.seed, "--n", n]
-    if corrupt:
-        args += ["--corrupt", corrupt]
-    vlib.ohv(args, stdout_path=tr)
-    lines = open(tr).read().splitlines()
-    shards = vlib.shard_lines(lines, 4 if tier == "quick" else 12, "c19_shard")
-    res, mism, acc = vlib.validate_traces("Trace_ExtTime", shards)
-    for m in mism:
-        c.mismatch("recorded history not explained by ExtTime.tla", m)
-    for x in res:
-        c.add_tlc(x)
-    c.add("traces_validated_against_impl", acc)
-    c.add("evaluations", len(lines))
-    for l in lines[:2] + lines[-1:]:
-        c.sample(json.loads(l))
+    vlib.tlc_ok("Gen_ExtTime", env={"OUT": tables}, heap="6g")
+    common.harness_replay(c, "exttime", tables)
+    common.trace_phase(c, "exttime", "Trace_ExtTime", 4000 if tier == "quick" else 60000,
+                       4 if tier == "quick" else 12, corrupt=corrupt)
     c.sample({"gen_tables": "new[256x256], from_mins[65536], add_hours[2881x256], add_minutes[2881 x 65536 via validity interval + 14 full rows], show/to_clock/hour/minute[2881], cmp[2881^2]"})
     c.setv("exhaustive", True)
     c.setv("rule", "GEN: every input of the finite domains of C19 (all u8xu8, all u16, all values x all i8 / i16) "
